@@ -7,12 +7,15 @@ import (
 	"fmt"
 	"math/rand"
 	"strings"
+	"sync"
 	"unicode/utf8"
 
 	"github.com/centrifugal/centrifuge"
 	"github.com/centrifugal/protocol"
 	fdelta "github.com/shadowspore/fossil-delta"
 )
+
+func newRng(seed int64) *rand.Rand { return rand.New(rand.NewSource(seed)) }
 
 // ---------------------------------------------------------------- payloads
 //
@@ -22,6 +25,7 @@ import (
 // the Protobuf transport, arbitrary byte values including the characters of the fossil delta grammar.
 
 type payloads struct {
+	mu     sync.Mutex
 	rng    *rand.Rand
 	binary bool
 	ascii  bool // JSON payloads without multi-byte characters
@@ -61,6 +65,8 @@ func (p *payloads) spice() string {
 
 // get returns payload id (created on first use; stable afterwards).
 func (p *payloads) get(id int) []byte {
+	p.mu.Lock()
+	defer p.mu.Unlock()
 	if b, ok := p.byID[id]; ok {
 		return b
 	}
@@ -98,6 +104,8 @@ func (p *payloads) get(id int) []byte {
 
 // idOf finds the published payload equal to b (0 = none).
 func (p *payloads) idOf(b []byte) int {
+	p.mu.Lock()
+	defer p.mu.Unlock()
 	for id, x := range p.byID {
 		if bytes.Equal(x, b) {
 			return id
